@@ -444,8 +444,10 @@ func loadIpMarkerFromFile(fp string) (*ipMarker, error) {
 }
 
 func cacheKey(q *dnsmsg.Question, mark string) pool.Buffer {
-	b := pool.GetBuf(len(q.Name) + 4 + len(mark))
+	b := pool.GetBuf(len(q.Name) + 1 + 4 + len(mark))
 	off := copy(b, q.Name)
+	b[off] = 0 // End of the name. Otherwise, the class can be read as a label.
+	off++
 	binary.BigEndian.PutUint16(b[off:], uint16(q.Class))
 	off += 2
 	binary.BigEndian.PutUint16(b[off:], uint16(q.Type))
